@@ -707,6 +707,16 @@ func (w *Walker) runDefers(fr *frame) {
 	w.defers[len(w.defers)-1] = nil
 	for i := len(ds) - 1; i >= 0; i-- {
 		d := ds[i]
+		if d.clos != nil && d.clos.Op == "closure" && d.clos.Fn != nil && d.clos.Fn.Blocks != nil && inModule(d.clos.Fn) && fr.depth < w.MaxDepth {
+			// a deferred function value (defer release()): its body runs now; what it does is recorded as deferred
+			w.event(Event{Kind: "call", Name: d.name, Args: d.args, Pos: d.pos, Instr: d.inst, Deferred: true, Fn: fr.fn, Depth: fr.depth})
+			n0 := len(w.events)
+			w.exec(d.clos.Fn, d.args, d.clos.Args, fr.depth+1)
+			for j := n0; j < len(w.events); j++ {
+				w.events[j].Deferred = true
+			}
+			continue
+		}
 		if d.name == "builtin:close" && len(d.args) == 1 {
 			// defer close(ch): the channel is closed when the function returns
 			w.event(Event{Kind: "close", Name: d.args[0].String(), Args: d.args, Pos: d.pos, Instr: d.inst, Deferred: true, Fn: fr.fn, Depth: fr.depth})
@@ -1894,6 +1904,32 @@ func (w *Walker) decideCmp(c *Term) bool {
 			return x == y
 		}
 		return x != y
+	}
+	// struct values of basic fields: equal iff every pair of corresponding fields is equal
+	if (op == token.EQL || op == token.NEQ) && a.Typ != nil {
+		if st, ok := a.Typ.Underlying().(*types.Struct); ok && st.NumFields() > 0 && st.NumFields() <= 8 {
+			basic := true
+			for i := 0; i < st.NumFields(); i++ {
+				if _, ok := st.Field(i).Type().Underlying().(*types.Basic); !ok {
+					basic = false
+				}
+			}
+			if basic {
+				all := true
+				for i := 0; i < st.NumFields(); i++ {
+					n := st.Field(i).Name()
+					fa, fb := project(a, n), project(b, n)
+					if !w.decideCmp(&Term{Op: "cmp", Name: "==", Args: []*Term{fa, fb}, Typ: types.Typ[types.Bool]}) {
+						all = false
+						break
+					}
+				}
+				if op == token.EQL {
+					return all
+				}
+				return !all
+			}
+		}
 	}
 	// generic equality atom
 	if op == token.EQL || op == token.NEQ {
